@@ -3,6 +3,155 @@ import gen_core
 from mvlib import unhex
 
 
+# ---------------------------------------------------------------------------------------------------------------
+# end to end from Mamba source text: the grouping chosen by the Mamba parser (and explicit parentheses) survive.
+# REF is the operator grammar of src/parse/operation.rs as it stands (level 7 loosest): and/or right-nested on one level,
+# comparisons right-nested, + - and * // mod left-nested, unary minus over a power, `not` taking everything to its right,
+# ^ right-nested over primaries.  A program is printed twice — with the fewest parentheses REF allows and fully
+# parenthesised — and both must come out as the same Python tree and compute the value the tree denotes.
+# ---------------------------------------------------------------------------------------------------------------
+SRC_PRE = "def a := 7\ndef b := 3\ndef c := 2\ndef d := 5\ndef p := True\ndef q := False\ndef t := True\n"
+SRC_ENV = {"a": 7, "b": 3, "c": 2, "d": 5, "p": True, "q": False, "t": True}
+SRC_OPS = {"and": (7, "R"), "or": (7, "R"), "<": (6, "R"), "<=": (6, "R"), ">": (6, "R"), ">=": (6, "R"), "=": (6, "R"), "!=": (6, "R"),
+           "+": (4, "L"), "-": (4, "L"), "*": (3, "L"), "//": (3, "L"), "mod": (3, "L"), "^": (1, "R")}
+
+
+def src_tree(rng, ty, depth):
+    if depth <= 0 or rng.random() < 0.2:
+        return ("v", rng.choice("abcd")) if ty == "I" else ("v", rng.choice("pqt"))
+    r = rng.random()
+    if ty == "I":
+        if r < 0.35:
+            return ("b", rng.choice(["+", "-"]), src_tree(rng, "I", depth - 1), src_tree(rng, "I", depth - 1))
+        if r < 0.6:
+            return ("b", "*", src_tree(rng, "I", depth - 1), src_tree(rng, "I", depth - 1))
+        if r < 0.75:
+            return ("b", rng.choice(["//", "mod"]), src_tree(rng, "I", depth - 1), ("v", rng.choice("abcd")))
+        if r < 0.88:
+            return ("b", "^", src_tree(rng, "I", depth - 1), ("v", "c"))
+        return ("neg", src_tree(rng, "I", depth - 1))
+    if r < 0.35:
+        return ("b", rng.choice(["<", "<=", ">", ">=", "=", "!="]), src_tree(rng, "I", depth - 1), src_tree(rng, "I", depth - 1))
+    if r < 0.75:
+        return ("b", rng.choice(["and", "or"]), src_tree(rng, "B", depth - 1), src_tree(rng, "B", depth - 1))
+    if r < 0.9:
+        return ("not", src_tree(rng, "B", depth - 1))
+    return ("b", rng.choice(["=", "!="]), src_tree(rng, "B", depth - 1), src_tree(rng, "B", depth - 1))
+
+
+def src_level(t):
+    return {"v": 0, "neg": 2, "not": 2}.get(t[0]) if t[0] != "b" else SRC_OPS[t[1]][0]
+
+
+def src_full(t):
+    if t[0] == "v":
+        return t[1]
+    if t[0] == "neg":
+        return "(-%s)" % src_full(t[1])
+    if t[0] == "not":
+        return "(not %s)" % src_full(t[1])
+    return "(%s %s %s)" % (src_full(t[2]), t[1], src_full(t[3]))
+
+
+def src_min(t, tail=True):
+    """fewest parentheses under REF; `tail`: nothing follows this sub-expression inside its parenthesis group"""
+    if t[0] == "v":
+        return t[1]
+    if t[0] == "neg":
+        x = t[1]
+        return "-" + (src_min(x, tail) if src_level(x) <= 2 and x[0] != "not" else "(" + src_min(x, True) + ")")
+    if t[0] == "not":
+        body = "not " + src_min(t[1], True)
+        return body if tail else "(" + body + ")"
+    lvl, assoc = SRC_OPS[t[1]]
+    lmax = lvl if assoc == "L" else lvl - 1
+    rmax = lvl if assoc == "R" else lvl - 1
+    if t[1] == "^":
+        lmax = 0
+    l, r = t[2], t[3]
+    ls = src_min(l, False) if src_level(l) <= lmax and l[0] != "not" else "(" + src_min(l, True) + ")"
+    if l[0] == "not" and src_level(l) <= lmax:
+        ls = "(" + src_min(l, True) + ")"
+    rs = src_min(r, tail) if src_level(r) <= rmax else "(" + src_min(r, True) + ")"
+    return "%s %s %s" % (ls, t[1], rs)
+
+
+def src_eval(t):
+    if t[0] == "v":
+        return SRC_ENV[t[1]]
+    if t[0] == "neg":
+        return -src_eval(t[1])
+    if t[0] == "not":
+        return not src_eval(t[1])
+    a, b = src_eval(t[2]), src_eval(t[3])
+    return {"and": lambda: a and b, "or": lambda: a or b, "<": lambda: a < b, "<=": lambda: a <= b, ">": lambda: a > b, ">=": lambda: a >= b,
+            "=": lambda: a == b, "!=": lambda: a != b, "+": lambda: a + b, "-": lambda: a - b, "*": lambda: a * b, "//": lambda: a // b,
+            "mod": lambda: a % b, "^": lambda: a ** b}[t[1]]()
+
+
+def rhs_of_r(py):
+    import ast
+    try:
+        m = ast.parse(py)
+    except SyntaxError:
+        return None
+    for st in m.body:
+        if isinstance(st, ast.Assign) and isinstance(st.targets[0], ast.Name) and st.targets[0].id == "r":
+            return gen_core.canon(st.value)
+        if isinstance(st, ast.AnnAssign) and isinstance(st.target, ast.Name) and st.target.id == "r" and st.value is not None:
+            return gen_core.canon(st.value)
+    return None
+
+
+def source_oracle(chk, n):
+    import sweep
+    rng = chk.rng
+    trees = []
+    for _ in range(n):
+        t = src_tree(rng, rng.choice("IB"), rng.randint(2, 4))
+        try:
+            v = src_eval(t)
+        except (ZeroDivisionError, OverflowError):
+            continue
+        if isinstance(v, int) and not isinstance(v, bool) and abs(v) > 10 ** 12:
+            continue
+        trees.append((t, v))
+    progs = []
+    for t, v in trees:
+        ann = ": Int" if not isinstance(v, bool) else ": Bool"
+        progs.append(SRC_PRE + "def r%s := %s\nprint(r)\n" % (ann, src_min(t)))
+        progs.append(SRC_PRE + "def r%s := %s\nprint(r)\n" % (ann, src_full(t)))
+    res = sweep.transpile(chk, progs, annotate_both=False)
+    runs = sweep.run_python([r[0][1] if r[0][0] == "ok" else "" for r in res])
+    stats = {"trees": len(trees), "both_accepted": 0, "rejected": 0, "minimal_differs_from_full_text": 0}
+    for i, (t, v) in enumerate(trees):
+        rm, rf = res[2 * i][0], res[2 * i + 1][0]
+        if rm[0] != "ok" or rf[0] != "ok":
+            stats["rejected"] += 1
+            if rm[0] != rf[0] and len(chk.violations) < 5:
+                chk.violation("input", "source expression %r: the verdict depends on redundant parentheses (%s vs %s)" % (src_min(t), rm[0], rf[0]),
+                              case={"kind": "source", "minimal": src_min(t), "full": src_full(t)}, actual=str(rm)[:500])
+            continue
+        stats["both_accepted"] += 1
+        if src_min(t) != src_full(t):
+            stats["minimal_differs_from_full_text"] += 1
+        am, af = rhs_of_r(rm[1]), rhs_of_r(rf[1])
+        want = "True" if v is True else "False" if v is False else str(v)
+        got = runs[2 * i]
+        why = None
+        if am != af:
+            why = "source expression %r and its fully parenthesised form %r are emitted as different Python trees" % (src_min(t), src_full(t))
+        elif got[0] != [want] or got[1] != "ok":
+            why = "source expression %r evaluates to %s in the emitted Python, the expression denotes %s" % (src_min(t), got, want)
+        if why:
+            f = chk.known(src_min(t))
+            if f:
+                chk.report_known(f, why)
+            elif len(chk.violations) < 5:
+                chk.violation("input", why, case={"kind": "source", "minimal": src_min(t), "full": src_full(t), "python": rm[1][-300:]}, expected=repr(af)[:800], actual=repr(am)[:800])
+    return stats
+
+
 def run(chk):
     thorough = chk.tier == "thorough"
     ok = chk.build_harness()
@@ -81,6 +230,7 @@ def run(chk):
                 chk.violation("input", "Python parses the printed builder %r to a different tree" % text.strip(), case={"kind": "core", "sexp": sx, "text": text},
                               expected=repr(want)[:1500], actual=repr(got)[:1500])
     dist["builders"] = n_comp
+    chk.cov["oracle_source"] = source_oracle(chk, 3000 if thorough else 500)
     for sx, a, b in dis[:5]:
         chk.broken("correspondence", "Print model and implementation disagree on %s:\n impl : %r\n model: %r" % (sx[:400], a, b))
     # grammar model vs CPython on unparenthesised prints (texts the real printer never emits)
